@@ -66,7 +66,7 @@ def run(tier):
                 "distinct = pre-state x construct x multiset of goal kinds in the sequence"
                 % ("{none, bb_put+freeze}; plus {bb_b_put+dif+structure} with core pairs" if quick
                    else "{none, bb_put+freeze, bb_b_put+dif+structure}",
-                   "length <= 2 over all goals, length 3 over 7 core goals" if quick
+                   "length <= 2 over all goals, length 3 over 6 core goals" if quick
                    else "length <= 3 over all goals, length 4 over 6 core goals"))
     res, vecs = generate("MC_C11", "MC_C11_%s.cfg" % tier, workers=base.cap(8 if quick else 14), timeout=3400,
                          key=lambda v: json.dumps(v["sc"]))
@@ -81,7 +81,8 @@ def run(tier):
             continue
         bad = crashed or "panic" in d or "timeout" in d
         kind = "crash" if bad else ("log" if d.startswith("log") else "outcome")
-        rep.violation("%s pre=%d construct=%d(%s) seq=%s script=%s: %s" % (kind, sc[0], sc[1], CONSTRUCTS[sc[1]], sc[2:], script_text(v), d),
+        tag = " dif-on-frozen" if v.get("diffrz") else ""
+        rep.violation("%s%s pre=%d construct=%d(%s) seq=%s script=%s: %s" % (kind, tag, sc[0], sc[1], CONSTRUCTS[sc[1]], sc[2:], script_text(v), d),
                       {"vector": v, "diff": d, "program": pr.text, "query": pr.qtext})
     for v in vecs[:: max(1, len(vecs) // 5)]:
         rep.sample({"script": script_text(v), "status": v["status"],
